@@ -34,6 +34,10 @@ WRAPPERS = {
     "next_prime": (["lhs"], "sympy.nextprime(lhs)"),
     "prev_prime": (["lhs"], "sympy.prevprime(int(lhs)) if lhs >= 3 else 1"),
     "vy_hex": (["lhs"], "hex(lhs)[2:]"),
+    "square_root": (["lhs"], "sympy.sqrt(lhs)"),
+    "halve": (["lhs"], "sympy.Rational(lhs, 2)"),
+    "square": (["lhs"], "exponent(lhs, 2, ctx)"),
+    "prime_factors": (["lhs"], "deep_flatten([[key] * value for key, value in sympy.ntheory.factorint(int(lhs)).items()], ctx=ctx)"),
     # explicit ranges: fixed bounds, independent of the implicit-range flags (M, m, Ṁ only move ctx.range_start / range_end)
     "inclusive_one_range": (["lhs"], "LazyList(range(1, int(lhs) + 1))"),
     "inclusive_zero_range": (["lhs"], "LazyList(range(0, int(lhs) + 1))"),
